@@ -74,6 +74,32 @@ Theorem C16_inputs_order : forall m stdin args k,
 Proof. exact inputs_order_lemma. Qed.
 Print Assumptions C16_inputs_order.
 
+(* PARTIAL consumption: a program st1, st2, … whose stages pull values through limit / first / isempty /
+   until / repeat(input) / reduce / foreach (Inputs.stage, transcribed from builtin.jq: limit(k) pulls exactly
+   k items, first and isempty one) prints on the iterator selected by createInputIter exactly what it prints
+   on the plain list all_outs: every stage continues where the previous one stopped *)
+Theorem C16_partial_consumption : forall m stdin args fuel sts,
+  fst (run_prog top top_next fuel sts (create_top m stdin args))
+  = fst (run_prog _ list_next fuel sts (all_outs m stdin args)).
+Proof. exact partial_consumption_lemma. Qed.
+Print Assumptions C16_partial_consumption.
+
+(* in particular `[limit(k; inputs)], [inputs]` with -n on an error-free input gives the first k values and
+   then all the others: nothing is lost and nothing comes twice, across files and stdin *)
+Theorem C16_take_then_rest : forall m stdin args vs k fuel,
+  all_outs m stdin args = map OVal vs -> (List.length vs < fuel)%nat ->
+  fst (run_prog top top_next fuel [StTake k; StRest] (create_top m stdin args))
+  = [OVal (varr (firstn k vs)); OVal (varr (skipn k vs))].
+Proof. exact take_then_rest_lemma. Qed.
+Print Assumptions C16_take_then_rest.
+
+Theorem C16_takerepeat_then_rest : forall m stdin args vs k fuel,
+  all_outs m stdin args = map OVal vs -> (List.length vs < fuel)%nat -> (k <= List.length vs)%nat ->
+  fst (run_prog top top_next fuel [StTakeRepeat k; StRest] (create_top m stdin args))
+  = [OVal (varr (firstn k vs)); OVal (varr (skipn k vs))].
+Proof. exact takerep_then_rest_lemma. Qed.
+Print Assumptions C16_takerepeat_then_rest.
+
 (* jsonInputIter: every complete value, then one error if a malformed document follows, then end *)
 Theorem C16_json_iter : iter_ok jiter json_next json_abs.
 Proof. exact json_ok. Qed.
